@@ -188,6 +188,13 @@ def main():
     memper = 2 if chk.tier == "quick" else 16
     clang_bin = chk.build("gasan")
     fibin = chk.build("fi")
+    # every monitor must be seen firing in the build that is used
+    errs, seen = R.monitor_canaries(
+        {"asan": binary, "gasan": clang_bin, "fi": fibin}, chk.workroot,
+        memcheck_bin=membin)
+    chk.harness_errors += errs
+    chk.counters["monitor_canaries_noticed"] = sum(1 for v in seen.values()
+                                                   if v)
     nio = 18 if chk.tier == "quick" else 90
     payloads = [(chk.seed, per, nops, binary, chk.workroot, membin, memper,
                  clang_bin, fibin, nio) for i in range(nchunks)]
